@@ -354,7 +354,7 @@ REGISTRY.add(Contract(
         "implies(mode != 'neg' and percpu, len(result) == len(pairs) and "
         "forall(range(len(pairs)), lambda i: result[i] == calc_pct(pairs[i][0], pairs[i][1])))",
     ] + FRAME,
-    raises={"ValueError": "mode == 'neg'"}, canaries=["result == 7.25"], replay=None,
+    raises={"ValueError": "mode == 'neg'"}, canaries=["result == 7.25"], replay="c07:front",
     note="the value is calculate(own previous sample | fresh sample | pre-sleep sample, newest sample) - calculate() has its "
          "own contract; other threads' samples untouched"))
 
@@ -367,5 +367,5 @@ REGISTRY.add(Contract(
         "implies(mode != 'neg' and percpu, len(result) == len(pairs) and "
         "forall(range(len(pairs)), lambda i: result[i] == calc_shares(pairs[i][0], pairs[i][1])))",
     ] + FRAME,
-    raises={"ValueError": "mode == 'neg'"}, canaries=["result == 7.25"], replay=None,
+    raises={"ValueError": "mode == 'neg'"}, canaries=["result == 7.25"], replay="c07:front",
     note="per-field shares = calculate(own previous sample | fresh | pre-sleep, newest); other threads' samples untouched"))
